@@ -3,6 +3,24 @@
   (wh.py:333-931): table checks, id maps (= row order of the vector tables,
   resp. counting order of the binary side), extension of given weights,
   duplicate policy of the binary conversion, OpenMP entry point, labels.
+
+  Continued learning (`weights = w`), what each flavour does with the REAL-side
+  labels of `w` (reproduced on the real code, xarray 2026.7):
+  * binary → real (wh.py 419-430) compares `.values.tolist()` of the outcome
+    vector dimensions: anything but the identical label list ⇒ `ValueError`;
+  * real → binary (wh.py 627) evaluates
+    `all(cue_vector_dimensions == weights['cue_vector_dimensions'])`, an xarray
+    comparison ALIGNED ON THE LABELS (inner join) of two coordinate arrays whose
+    values are their own labels: it is never False (`alignRaises`).  The given
+    values are then used POSITIONALLY and the result is labelled with the
+    table's dimensions — weights labelled `['z0','z1']` are accepted.  Only a
+    different NUMBER of columns fails (`np.concatenate`, `ValueError`);
+  * real → real (wh.py 826-834) checks the shape (`ValueError`), evaluates the
+    same two never-False comparisons, and then SELECTS by label
+    (`weights.loc[{…: outcome_dims, …: cue_dims}]`, outcome axis first): a
+    permutation of the labels is re-aligned, a table dimension label that `w`
+    lacks ⇒ `KeyError`, a repeated label in `w` ⇒ pandas `InvalidIndexError`
+    (no Key/Value/OS/Type error: class `other`) (`locAxis`, `realignVals`).
 -/
 import PyndlModel.WH
 import PyndlModel.Ndl
@@ -33,8 +51,33 @@ def applyPolicyIds (p : DupPolicy) : List (Event Nat Nat) → Except Err (List (
       | .error x => .error x
       | .ok r => .ok (e' :: r)
 
+/-- `all(a == b)` of wh.py 627 / 828 / 830 for two xarray coordinate arrays with
+    label lists `a`, `b`: the comparison is aligned on the labels (inner join) and
+    compares every shared label with itself, so it is never False.  It RAISES
+    `ValueError` ("cannot reindex or align along dimension … because the (pandas)
+    index has duplicate values") exactly when the two label lists differ (an
+    alignment is needed) and one of them has a repeated label. -/
+def alignRaises (a b : List String) : Prop := a ≠ b ∧ ¬ (a.Nodup ∧ b.Nodup)
+
+instance (a b : List String) : Decidable (alignRaises a b) := by unfold alignRaises; infer_instance
+
+/-- one axis of `weights.loc[{dim: wanted}]` (wh.py 834) on an axis labelled
+    `old`: pandas refuses a non-unique index (`InvalidIndexError`, class
+    `other`); a wanted label that is no label of `old` ⇒ `KeyError`. -/
+def locAxis (old wanted : List String) : Option Err :=
+  if ¬ old.Nodup then some .other
+  else if wanted.any (fun d => !old.contains d) then some .key
+  else none
+
+/-- the values of `w.loc[rows, cols]` (label-based selection, row-major):
+    cell `(i, j)` is `w` read at the labels `rows[i]`, `cols[j]` -/
+def realignVals (w : LW R) (rows cols : List String) : Array R :=
+  Array.ofFn (n := rows.length * cols.length) (fun k =>
+    w.get (rows.getD (k.val / cols.length) "") (cols.getD (k.val % cols.length) ""))
+
 /-- the rows of a given weight matrix re-used for continued learning: only new
-    *binary-side* labels may be appended (zero filled) -/
+    *binary-side* labels may be appended (zero filled); see the file header for
+    what each flavour does with the real-side labels of the given weights -/
 def whModel (fl : WhFlavour) (p : DupPolicy) (eta β₁ β₂ lam : R)
     (cueTab outTab : Option (VecTable R)) (chunk : Nat) (W0 : Option (LW R))
     (es : List (Event String String)) : Except Err (LW R) :=
@@ -48,10 +91,18 @@ def whModel (fl : WhFlavour) (p : DupPolicy) (eta β₁ β₂ lam : R)
     let w0 : Except Err (Array R) := match W0 with
       | none => .ok (Array.replicate (nO * nC) 0)
       | some w =>
+        -- `weights.shape == shape`
         if w.outcomes.length ≠ nO ∨ w.cues.length ≠ nC then .error .value
-        else if w.outcomes ≠ ot.dims then .error .value
-        else if w.cues ≠ ct.dims then .error .value
-        else .ok w.vals
+        -- the two `all(… == …)`: never False, may raise
+        else if alignRaises ot.dims w.outcomes then .error .value
+        else if alignRaises ct.dims w.cues then .error .value
+        -- `weights.loc[…]`: outcome axis first
+        else match locAxis w.outcomes ot.dims with
+          | some e => .error e
+          | none =>
+            match locAxis w.cues ct.dims with
+            | some e => .error e
+            | none => .ok (realignVals w ot.dims ct.dims)
     match w0 with
     | .error e => .error e
     | .ok w0 =>
@@ -89,7 +140,10 @@ def whModel (fl : WhFlavour) (p : DupPolicy) (eta β₁ β₂ lam : R)
     let init : Except Err (List String × Array R) := match W0 with
       | none => .ok (outsEv, Array.replicate (outsEv.length * nC) 0)
       | some w =>
-        if w.cues ≠ ct.dims then .error .value
+        -- `all(… == …)` is never False (may raise); `np.concatenate` needs equal widths;
+        -- the labels of `w` are otherwise IGNORED: values by position, table's labels
+        if alignRaises ct.dims w.cues then .error .value
+        else if w.cues.length ≠ nC then .error .value
         else
           let outs := w.outcomes ++ outsEv.filter (fun o => !w.outcomes.contains o)
           .ok (outs, extendVals w.vals w.outcomes.length nC outs.length nC)
